@@ -87,11 +87,12 @@ let parse_call s = match split_on ',' s with
 type it_in = { i_d : int; i_iter : iter; i_wake : n option }
 
 let parse_iter s = match split_on ':' s with
-  | [ "I"; d; now; wake; jit; calls; dgs ] ->
+  | [ "I"; d; now; wake; jit; calls; dgs; mif ] ->
     { i_d = int_of_string d;
       i_wake = (if wake = "n" then None else Some (n_of_dec wake));
       i_iter = { it_now = n_of_dec now; it_dgrams = List.map parse_dgram (items ';' dgs);
-                 it_calls = List.map parse_call (items ';' calls); it_jitter = List.map n_of_dec (items '.' jit) } }
+                 it_calls = List.map parse_call (items ';' calls); it_jitter = List.map n_of_dec (items '.' jit);
+                 it_mif = (if mif = "n" then None else Some (n_of_dec mif)) } }
   | _ -> failwith "iter"
 
 let parse_history (toks : string list) : (int * intf list) list * it_in list =
